@@ -9,6 +9,7 @@ CONSTANTS
   QSets <- QSetsDef
   BiasTrim = FALSE
   FinalAt = 0
+  ScriptMix = 0
   BigSize = 4
   SetFees <- SetFeesMC
 INIT Init
